@@ -227,6 +227,12 @@ def check_instance(inst, exp, *, tol=1e-9):
             M = m * d
             want_lp = -0.5 * float(E["maha"]) - 0.5 * np.log(float(E["det"])) - 0.5 * M * np.log(2 * np.pi)
             cmp(f"logpdf_flat[{sname}]", obs.logpdf_flat(data), want_lp)
+            # log-density AT THE MEAN of the same Gaussian with its factor rescaled by c = 2^-60 (pivots far below machine
+            # epsilon): -1/2 log det S - dim/2 log 2 pi - dim * log(c), exactly
+            c60 = 2.0**-60
+            obs_c = obs.rescale_cholesky(jnp.asarray(c60))
+            cmp(f"logpdf_flat[{sname}].rescaled(2^-60).at-mean", obs_c.logpdf_flat(obs_c.mean_flat),
+                -0.5 * np.log(float(E["det"])) - 0.5 * M * np.log(2 * np.pi) - M * np.log(c60))
             lp, upd = c1.bayes_rule_and_logpdf_tree(data_tree, x, solve_triu=solve)
             cmp(f"bayes_rule_and_logpdf_tree[{sname}].logpdf", lp, want_lp)
             cmp_rv(f"bayes_rule_and_logpdf_tree[{sname}].updated", upd, E["post_mean"], E["post_cov"])
